@@ -48,7 +48,7 @@ func leadConst(e *Expr) (string, bool) {
 	return "", false
 }
 
-var reAssertKind = regexp.MustCompile(`\.\(\*ast\.(\w+)\)#1$`)
+var reAssertKind = regexp.MustCompile(`^\w+\.Type\.\(\*ast\.(\w+)\)#1$`)
 
 func augTypeStr(c *Ctx, a *flAgg) {
 	fn := c.MustFunc(a.obls, "AUG-typestr", "stack", "", "fieldToType")
@@ -58,6 +58,37 @@ func augTypeStr(c *Ctx, a *flAgg) {
 	exprHome = fn.Pkg.Pkg
 	x := &SPE{Fn: fn, MaxVisits: 2}
 	x.Explore()
+	// fieldToType may delegate a kind to name(), which names AST nodes: what
+	// name() returns per syntax kind of its own argument
+	type shape struct {
+		pre   string
+		exact bool
+		ok    bool
+	}
+	nameShape := map[string]shape{}
+	if nf := c.L.Func("stack", "", "name"); nf != nil && len(nf.Params) == 1 {
+		nx := &SPE{Fn: nf, MaxVisits: 2}
+		nx.Explore()
+		pn := nf.Params[0].Name()
+		re := regexp.MustCompile(`^` + regexp.QuoteMeta(pn) + `\.\(\*ast\.(\w+)\)#1$`)
+		for _, p := range nx.Paths {
+			if p.Term != "return" || len(p.Results) != 1 {
+				continue
+			}
+			kind := "default"
+			for _, lt := range p.Lits {
+				if m := re.FindStringSubmatch(lt.Atom.String()); m != nil && lt.Pol {
+					kind = m[1]
+				}
+			}
+			pre, exact := leadConst(p.Results[0])
+			if old, seen := nameShape[kind]; seen && (old.pre != pre || old.exact != exact) {
+				nameShape[kind] = shape{}
+			} else if !seen {
+				nameShape[kind] = shape{pre, exact, true}
+			}
+		}
+	}
 	type want struct {
 		prefix   string
 		exact    bool
@@ -104,6 +135,13 @@ func augTypeStr(c *Ctx, a *flAgg) {
 		}
 		seen[kind] = true
 		pre, exact := leadConst(p.Results[0])
+		// name(f.Type): the shape name() gives this kind
+		if r := p.Results[0]; r.Op == OpCall && r.Fn != nil && r.Fn.Name() == "name" && len(r.Args) == 2 && strings.HasSuffix(r.Args[1].String(), ".Type") {
+			k := strings.SplitN(kind, "/", 2)[0]
+			if sh, ok := nameShape[k]; ok && sh.ok {
+				pre, exact = sh.pre, sh.exact
+			}
+		}
 		variadic, isC := p.Results[1].boolConst()
 		ok := isC && variadic == w.variadic
 		switch {
@@ -175,12 +213,12 @@ func augLoad(c *Ctx, a *flAgg) {
 				a.ok("AUG-load", "loadFile/store", "a file is remembered only after it was read and parsed without error, with the tree of that parse", pos)
 			}
 		}
-		// a failed parse is reported
-		if p.Term == "return" && len(p.Results) == 1 {
+		// a failed parse is reported (the error is the last result)
+		if p.Term == "return" && len(p.Results) >= 1 {
 			for _, lt := range p.Lits {
 				as := lt.Atom.String()
 				if strings.HasSuffix(as, "#1 == nil)") && !lt.Pol && (strings.Contains(as, "ParseFile(") || strings.Contains(as, "ReadFile(")) {
-					if p.Results[0].isNilConst() {
+					if p.Results[len(p.Results)-1].isNilConst() {
 						a.bad("AUG-load", "loadFile/error", "a read or parse failure is not returned", pos)
 					} else {
 						a.ok("AUG-load", "loadFile/error", "read and parse failures are returned", pos)
